@@ -286,4 +286,263 @@ Lemma nonfinite_old_panics :
                  [BSeq (VText [PLit [97%N]]) [CNum (JF (Some 2139095040))]; BSeq (VText [PLit [98%N]]) []] in
       (exists bs, parse_decl_nonfinite_old [] d = Ok (F32, bs) /\ codegen F32 bs = Panic SiteCodegenFloat)
       /\ parse_decl [] d = Err RangeNumberType).
-Proof. repeat split; try (vm_compute; reflexivity). eexists. split; vm_compute; reflexivity. Qed.
+Proof.
+  split; [vm_compute; reflexivity|]. split; [vm_compute; reflexivity|]. split.
+  - exists [(Exact (Some 2139095040), [PLit [97%N]]); (Fallback, [PLit [98%N]])].
+    split; vm_compute; reflexivity.
+  - vm_compute. reflexivity.
+Qed.
+
+(* ================================================================== meaning of parsed counts *)
+
+Lemma range_new_sem t tbl atoms r :
+  atoms <> [] -> forallb (atom_wf t tbl) atoms = true -> range_new t tbl (print_spec atoms) = Ok r ->
+  forall x, pat_match r x = rsem atoms x.
+Proof.
+  intros Hn Hw Hr. destruct (forallb (atom_ok t) atoms) eqn:E.
+  - destruct (parse_sem_ok t tbl atoms Hn Hw E) as (r' & Hr' & Hp & _). congruence.
+  - destruct (parse_sem_err t tbl atoms Hn Hw E) as (e & He). congruence.
+Qed.
+
+Lemma from_jnum_val t n r : from_jnum t n = Ok r -> r = Exact (jnum_val t n).
+Proof.
+  unfold from_jnum, from_jnum_g, jnum_val. cbn [negb orb].
+  destruct n as [z fv|z fv|fv]; destruct (ty_is_float t);
+    try (destruct (num_finite t fv); [|discriminate]; now intros [= <-]);
+    try discriminate; (destruct (in_ty t z); [|discriminate]; now intros [= <-]).
+Qed.
+
+Fixpoint csem_list (t : rtype) (l : list csrc) (x : num) : option bool :=
+  match l with
+  | [] => Some false
+  | c :: r => match csem t c x, csem_list t r x with
+              | Some a, Some b => Some (a || b)
+              | _, _ => None
+              end
+  end.
+Lemma csem_go t x l :
+  (fix go (l : list csrc) : option bool :=
+     match l with
+     | [] => Some false
+     | c :: r => match csem t c x, go r with
+                 | Some a, Some b => Some (a || b)
+                 | _, _ => None
+                 end
+     end) l = csem_list t l x.
+Proof. induction l as [|c l IH]; [reflexivity|]. cbn [csem_list]. rewrite <- IH. reflexivity. Qed.
+Lemma csem_arr t l x : l <> [] -> csem t (SArr l) x = csem_list t l x.
+Proof. destruct l as [|c l]; [congruence|]. intros _. exact (csem_go t x (c :: l)). Qed.
+
+Lemma parse_count_single t tbl c r : parse_count t tbl (CArr [c]) = Ok r -> parse_count t tbl c = Ok r.
+Proof.
+  rewrite parse_count_arr. destruct (parse_count t tbl c); cbn [bind collect]; try discriminate. now intros [= <-].
+Qed.
+
+Lemma csrc_sem t tbl c : sdecl_wf_count t tbl c = true ->
+  forall r x b, parse_count t tbl (csrc_json c) = Ok r -> csem t c x = Some b -> pat_match r x = b.
+Proof.
+  induction c as [atoms|s|n|l IH] using csrc_ind'; intros Hw r x b Hr Hc.
+  - cbn [sdecl_wf_count] in Hw. apply andb_true_iff in Hw as [Hn Hw].
+    cbn [csrc_json] in Hr. rewrite parse_count_str in Hr. cbn [csem] in Hc. injection Hc as <-.
+    apply (range_new_sem t tbl); try assumption. intros ->. discriminate.
+  - discriminate.
+  - cbn [csrc_json] in Hr. rewrite parse_count_num in Hr. apply from_jnum_val in Hr as ->.
+    cbn [csem] in Hc. injection Hc as <-. reflexivity.
+  - destruct l as [|c rest].
+    + cbn in Hr, Hc. injection Hr as <-. injection Hc as <-. reflexivity.
+    + rewrite csem_arr in Hc by discriminate. cbn [csem_list] in Hc.
+      cbn [csrc_json map] in Hr. rewrite parse_count_arr in Hr.
+      cbn [sdecl_wf_count forallb] in Hw. apply andb_true_iff in Hw as [Hwc Hwr].
+      inversion IH as [|? ? IHc IHr]; subst.
+      destruct (parse_count t tbl (csrc_json c)) as [f| | |] eqn:Ef; cbn [bind] in Hr; try discriminate.
+      destruct (collect (parse_count t tbl) (map csrc_json rest)) as [rs| | |] eqn:Ers; cbn [bind] in Hr; try discriminate.
+      destruct (csem t c x) as [a|] eqn:Ea; [|discriminate].
+      destruct (csem_list t rest x) as [b'|] eqn:Eb; [|discriminate]. injection Hc as <-.
+      pose proof (IHc Hwc f x a eq_refl Ea) as Hf.
+      assert (existsb (fun r => pat_match r x) rs = b') as Hrs.
+      { clear -IHr Hwr Ers Eb. revert rs b' Ers Eb. induction rest as [|c0 rest IH]; intros rs b' Ers Eb.
+        - cbn in Ers, Eb. injection Ers as <-. injection Eb as <-. reflexivity.
+        - cbn [map collect] in Ers. cbn [csem_list] in Eb. cbn [forallb] in Hwr. apply andb_true_iff in Hwr as [W1 W2].
+          inversion IHr as [|? ? I1 I2]; subst.
+          destruct (parse_count t tbl (csrc_json c0)) as [r0| | |] eqn:E0; cbn [bind] in Ers; try discriminate.
+          destruct (collect (parse_count t tbl) (map csrc_json rest)) as [rs0| | |] eqn:E1; cbn [bind] in Ers; try discriminate.
+          injection Ers as <-.
+          destruct (csem t c0 x) as [a0|] eqn:Ea0; [|discriminate].
+          destruct (csem_list t rest x) as [b0|] eqn:Eb0; [|discriminate]. injection Eb as <-.
+          cbn [existsb]. rewrite (I1 W1 r0 x a0 eq_refl Ea0), (IH W2 I2 rs0 b0 eq_refl eq_refl). reflexivity. }
+      destruct rs as [|r0 rs']; injection Hr as <-.
+      * cbn in Hrs. subst b'. now rewrite orb_false_r.
+      * cbn [pat_match]. change (r0 :: rs' ++ [f]) with ((r0 :: rs') ++ [f]).
+        rewrite existsb_app, Hrs. cbn [existsb]. rewrite Hf, orb_false_r. apply orb_comm.
+Qed.
+
+(* ================================================================== branches and declarations *)
+
+Definition branch_rel (t : rtype) (sb : sbranch) (rb : range * pval) : Prop :=
+  snd rb = sb_value sb /\ forall x b, bsem t sb x = Some b -> pat_match (fst rb) x = b.
+
+Definition sbranch_wf (t : rtype) (tbl : ftable) (b : sbranch) : bool :=
+  match sb_count b with Some c => sdecl_wf_count t tbl c | None => true end.
+
+Lemma parse_branch_seq t tbl ps counts r v :
+  parse_branch t tbl (BSeq (VText ps) counts) = Ok (r, v) -> v = ps /\ parse_count t tbl (CArr counts) = Ok r.
+Proof.
+  unfold parse_branch, parse_branch_g. cbn [parse_value bind].
+  change (parse_count_seq_g true t tbl counts) with (parse_count t tbl (CArr counts)).
+  destruct (parse_count t tbl (CArr counts)); cbn [bind]; try discriminate. intros [= <- <-]. auto.
+Qed.
+
+Lemma branch_sem t tbl sb r v : sbranch_wf t tbl sb = true ->
+  parse_branch t tbl (sbranch_json sb) = Ok (r, v) -> branch_rel t sb (r, v).
+Proof.
+  unfold sbranch_wf, branch_rel, bsem, sbranch_json. destruct sb as [cnt ps syn]. cbn [sb_count sb_value sb_syntax fst snd].
+  intros Hw H.
+  destruct syn, cnt as [c|].
+  - (* SynSeq, Some c *)
+    destruct c as [atoms|s|n|l].
+    + apply parse_branch_seq in H as [-> H]. apply parse_count_single in H. split; [reflexivity|].
+      intros x b. now apply (csrc_sem t tbl (SStr atoms)).
+    + apply parse_branch_seq in H as [-> H]. split; [reflexivity|]. intros x b Hb. discriminate.
+    + apply parse_branch_seq in H as [-> H]. apply parse_count_single in H. split; [reflexivity|].
+      intros x b. now apply (csrc_sem t tbl (SNum n)).
+    + apply parse_branch_seq in H as [-> H]. split; [reflexivity|].
+      intros x b. now apply (csrc_sem t tbl (SArr l)).
+  - apply parse_branch_seq in H as [-> H]. rewrite parse_count_nil in H. injection H as <-.
+    split; [reflexivity|]. now intros x b [= <-].
+  - (* SynSeqNested, Some c *)
+    apply parse_branch_seq in H as [-> H]. apply parse_count_single in H. split; [reflexivity|].
+    intros x b. now apply (csrc_sem t tbl c).
+  - apply parse_branch_seq in H as [-> H]. apply parse_count_single in H. rewrite parse_count_nil in H.
+    injection H as <-. split; [reflexivity|]. now intros x b [= <-].
+  - (* SynMapCV, Some c *)
+    unfold parse_branch, parse_branch_g in H. cbn [parse_fields_g parse_value bind] in H.
+    change (parse_count_g true t tbl (csrc_json c)) with (parse_count t tbl (csrc_json c)) in H.
+    destruct (parse_count t tbl (csrc_json c)) as [r0| | |] eqn:E; cbn [bind] in H; try discriminate.
+    injection H as <- <-. split; [reflexivity|]. intros x b. now apply (csrc_sem t tbl c).
+  - unfold parse_branch, parse_branch_g in H. cbn [parse_fields_g parse_value bind] in H.
+    injection H as <- <-. split; [reflexivity|]. now intros x b [= <-].
+  - (* SynMapVC, Some c *)
+    unfold parse_branch, parse_branch_g in H. cbn [parse_fields_g parse_value bind] in H.
+    change (parse_count_g true t tbl (csrc_json c)) with (parse_count t tbl (csrc_json c)) in H.
+    destruct (parse_count t tbl (csrc_json c)) as [r0| | |] eqn:E; cbn [bind] in H; try discriminate.
+    injection H as <- <-. split; [reflexivity|]. intros x b. now apply (csrc_sem t tbl c).
+  - unfold parse_branch, parse_branch_g in H. cbn [parse_fields_g parse_value bind] in H.
+    injection H as <- <-. split; [reflexivity|]. now intros x b [= <-].
+Qed.
+
+Lemma type_of_string_name l t r : all_ws l = true -> all_ws r = true -> type_of_string (l ++ type_name t ++ r) = Some t.
+Proof.
+  intros Hl Hr. unfold type_of_string. rewrite trim_pad; try assumption; destruct t; reflexivity.
+Qed.
+
+Lemma collect_branches_rel t tbl src bs :
+  forallb (sbranch_wf t tbl) src = true -> collect (parse_branch t tbl) (map sbranch_json src) = Ok bs ->
+  Forall2 (branch_rel t) src bs.
+Proof.
+  revert bs. induction src as [|sb src IH]; intros bs Hw H.
+  - cbn in H. injection H as <-. constructor.
+  - cbn [map collect] in H. cbn [forallb] in Hw. apply andb_true_iff in Hw as [W1 W2].
+    destruct (parse_branch t tbl (sbranch_json sb)) as [[r v]| | |] eqn:E; cbn [bind] in H; try discriminate.
+    destruct (collect (parse_branch t tbl) (map sbranch_json src)) as [rest| | |] eqn:Ec; cbn [bind] in H; try discriminate.
+    injection H as <-. constructor; [now apply (branch_sem t tbl)|now apply IH].
+Qed.
+
+Lemma parse_decl_rel tbl d t bs : sdecl_wf tbl d = true -> parse_decl tbl (sdecl_json d) = Ok (t, bs) ->
+  t = sdecl_type d /\ Forall2 (branch_rel t) (sd_branches d) bs.
+Proof.
+  unfold sdecl_wf. intros Hw H. apply andb_true_iff in Hw as [Hty Hbr].
+  change (forallb (sbranch_wf (sdecl_type d) tbl) (sd_branches d) = true) in Hbr.
+  apply parse_decl_with_inv in H as [_ H]. unfold sdecl_json, sdecl_type in *.
+  destruct d as [[[[l t0] r]|] src]; cbn [sd_type sd_branches] in *.
+  - apply andb_true_iff in Hty as [Hl Hr]. cbn [d_first d_rest] in H.
+    destruct H as [(s & [= <-] & Ht & Hc)|(b & x & rest & Hf & _)]; [|discriminate].
+    rewrite type_of_string_name in Ht by assumption. injection Ht as <-.
+    split; [reflexivity|]. now apply (collect_branches_rel t0 tbl).
+  - destruct src as [|sb src]; cbn [d_first d_rest] in H.
+    + destruct H as [(s & Hf & _)|(b & x & rest & Hf & _)]; discriminate.
+    + destruct H as [(s & Hf & _)|(b & [r v] & rest & [= <-] & -> & Hb & Hc & ->)]; [discriminate|].
+      cbn [forallb] in Hbr. apply andb_true_iff in Hbr as [W1 W2]. split; [reflexivity|].
+      constructor; [now apply (branch_sem I32 tbl)|now apply (collect_branches_rel I32 tbl)].
+Qed.
+
+(* ================================================================== selection *)
+
+Lemma first_matching_sel t src bs x o :
+  Forall2 (branch_rel t) src bs -> first_matching t src x = Some o ->
+  gen_match bs x = o
+  /\ (forall i, o = Some i -> exists sb rb, nth_error src i = Some sb /\ nth_error bs i = Some rb /\ snd rb = sb_value sb).
+Proof.
+  intros HF. revert o. induction HF as [|sb [r v] src bs [Hv Hs] _ IH]; intros o H; cbn [first_matching gen_match] in *.
+  - injection H as <-. split; [reflexivity|discriminate].
+  - cbn [fst snd] in *. destruct (bsem t sb x) as [[|]|] eqn:E; try discriminate.
+    + injection H as <-. rewrite (Hs x true E). split; [reflexivity|].
+      intros i [= <-]. exists sb, (r, v). auto.
+    + rewrite (Hs x false E).
+      destruct (first_matching t src x) as [[j|]|] eqn:Ef; try discriminate; injection H as <-;
+        destruct (IH _ eq_refl) as [Hg Hn]; rewrite Hg; (split; [reflexivity|]).
+      * intros i [= <-]. destruct (Hn j eq_refl) as (sb' & rb' & ? & ? & ?). exists sb', rb'. auto.
+      * discriminate.
+Qed.
+
+Lemma find_index_gen_match bs x : branches_no_nan bs = true -> x <> None -> find_index bs x = gen_match bs x.
+Proof.
+  intros Hn Hx. rewrite find_index_first, gen_match_first. apply first_index_ext. intros b Hb.
+  apply do_match_pat_match; [assumption|]. unfold branches_no_nan in Hn. rewrite forallb_forall in Hn. now apply Hn.
+Qed.
+
+(** what the check observes of the model: rendered static selection and native first match *)
+Definition static_obs (t : rtype) (bs : branches) (a : count_arg) : res str :=
+  match populate_with_count_arg t bs a with
+  | Ok (SValue v) => Ok (render v)
+  | Ok (SRanges _ _) => Unmodelled
+  | Err e => Err e
+  | Panic s => Panic s
+  | Unmodelled => Unmodelled
+  end.
+Definition native_obs (t : rtype) (bs : branches) (a : count_arg) : option (option nat) :=
+  match lit_value t (ca_lit a) with Some x => Some (gen_match bs x) | None => None end.
+
+Lemma static_of_lit t bs a x : lit_value t (ca_lit a) = Some x ->
+  static_obs t bs a = match find_value bs x (ca_disp a) with
+                      | Ok v => Ok (render v) | Err e => Err e | Panic s => Panic s | Unmodelled => Unmodelled end.
+Proof.
+  unfold lit_value, static_obs, populate_with_count_arg, populate_with_count_arg_with.
+  destruct (ca_lit a) as [z|z|v64 v32|name|]; cbn [count_of_lit]; try discriminate;
+    match goal with |- match ?C with _ => _ end = _ -> _ => destruct C as [c| | |] eqn:E; try discriminate end;
+    intros [= <-]; cbn [bind]; destruct (find_value bs c (ca_disp a)); reflexivity.
+Qed.
+
+Lemma zip4_map {A B C D} (f : A -> B) (g : A -> C) (h : A -> D) l :
+  zip4 l (map f l) (map g l) (map h l) = map (fun a => (a, f a, g a, h a)) l.
+Proof. induction l as [|a l IH]; [reflexivity|]. cbn [map zip4]. now rewrite IH. Qed.
+
+Lemma rtype_eqb_refl t : rtype_eqb t t = true.
+Proof. destruct t; reflexivity. Qed.
+Lemma str_eqb_refl s : str_eqb s s = true.
+Proof. now apply str_eqb_eq. Qed.
+
+(** the declaration-level predicate of the check holds of the model for every source declaration *)
+Theorem spec_decl_holds d tbl counts t bs :
+  sdecl_wf tbl d = true -> forallb disp_ok counts = true ->
+  parse_decl tbl (sdecl_json d) = Ok (t, bs) ->
+  spec_C04 d counts (Ok (t, ibranches_of bs))
+    (map (static_obs t bs) counts) (map (native_obs t bs) counts) (map (fun _ => None) counts) = true.
+Proof.
+  intros Hw Hdisp Hp.
+  pose proof (parse_decl_no_nan tbl _ t bs Hp) as Hnn.
+  destruct (parse_decl_rel tbl d t bs Hw Hp) as [Ht HF].
+  unfold spec_C04. rewrite Ht at 1. rewrite rtype_eqb_refl. cbn [andb].
+  rewrite zip4_map, forallb_forall. intros q Hq. apply in_map_iff in Hq as (a & <- & Ha).
+  rewrite forallb_forall in Hdisp. specialize (Hdisp a Ha).
+  unfold spec_C04_count, native_obs.
+  destruct (lit_value t (ca_lit a)) as [[k|]|] eqn:El; try reflexivity.
+  rewrite (static_of_lit t bs a (Some k) El).
+  destruct (first_matching t (sd_branches d) (Some k)) as [[i|]|] eqn:Ef; try reflexivity.
+  - destruct (first_matching_sel t _ bs (Some k) _ HF Ef) as [Hg Hn].
+    destruct (Hn i eq_refl) as (sb & rb & Hsb & Hrb & Hv).
+    rewrite Hsb, find_value_index, (find_index_gen_match bs (Some k) Hnn) by discriminate.
+    rewrite Hg, Hrb, Hv, Hdisp. cbn [res_eqb opt_eqb andb]. now rewrite str_eqb_refl, Nat.eqb_refl.
+  - destruct (first_matching_sel t _ bs (Some k) _ HF Ef) as [Hg _].
+    rewrite find_value_index, (find_index_gen_match bs (Some k) Hnn) by discriminate.
+    rewrite Hg. reflexivity.
+Qed.
